@@ -432,6 +432,22 @@ func e2eExecute(c e2eCase, cfg rConfig) (*e2eRun, error) {
 			}
 			wg.Wait()
 		}
+		if c.Overlap {
+			// two requests to the debug API in flight at once (the second starts while the first waits for its
+			// second 2 ms state read): each answer is judged like one that ran alone
+			var wg sync.WaitGroup
+			par := make([]e2eProbe, 2)
+			for gi := range par {
+				wg.Add(1)
+				go func() {
+					defer wg.Done()
+					time.Sleep(time.Duration(gi) * 3 * time.Millisecond)
+					par[gi] = get("/_/api/interfaces")
+				}()
+			}
+			wg.Wait()
+			run.Probes = append(run.Probes, par...)
+		}
 		if c.Flip {
 			for i, ri := range cfg.Interfaces {
 				v := "1"
